@@ -60,9 +60,9 @@ fn iso_strategy() -> impl Strategy<Value = Iso> {
     )
         .prop_map(|((na, nb, a_amountless, b_amountless, splits), (a_ok, b_ok, a_parts, b_funded, a_funded, b_parts), (k, _), shuffle, seed, mpp, a_rejecting, stuck_poll, (restart_mode, a_old_parts, b_old_parts), a_store_fails)| {
             let cfg = Cfg { mpp_timeout_s: mpp, ..Cfg::default() };
-            let pa = PaymentSpec { preimage: if seed % 2 == 0 { 0x04 } else { 0x11 }, // sha256(32 x 0x04) and sha256(32 x 0x22) share their first byte
+            let pa = PaymentSpec { preimage_hi: 0, preimage: if seed % 2 == 0 { 0x04 } else { 0x11 }, // sha256(32 x 0x04) and sha256(32 x 0x22) share their first byte
                 invoice_amount: if a_amountless { None } else { Some(1_000_000) }, tlv_amount: 777_000, hints: Hints::None, explicit_payee: false, recipient_ok: a_ok, drain_parts: a_parts };
-            let pb = PaymentSpec { preimage: 0x22, invoice_amount: if b_amountless { None } else { Some(2_000_000) }, tlv_amount: 555_000, hints: Hints::Other, explicit_payee: true, recipient_ok: b_ok, drain_parts: b_parts };
+            let pb = PaymentSpec { preimage_hi: 0, preimage: 0x22, invoice_amount: if b_amountless { None } else { Some(2_000_000) }, tlv_amount: 555_000, hints: Hints::Other, explicit_payee: true, recipient_ok: b_ok, drain_parts: b_parts };
             let na = if a_store_fails > 0 { na.max(a_store_fails as usize).min(3) } else { na };
             let mut htlcs = well_formed_set(&cfg, 0, &pa, na, a_funded, 1000, &splits[..3]);
             if a_store_fails > 0 {
